@@ -1,13 +1,13 @@
 CONSTANTS
   Server = {1, 2, 3}
   MaxTerm = 2
-  MaxProposals = 1
-  MaxCrashes = 1
-  MaxDrops = 1
+  MaxProposals = 0
+  MaxCrashes = 0
+  MaxDrops = 0
   MaxDups = 0
-  MaxHeartbeats = 0
+  MaxHeartbeats = 1
   MaxLog = 3
-  MaxNet = 4
+  MaxNet = 6
   MaxEnts = 0
   SimDepth = 0
   W_CommitAnyTerm = FALSE
@@ -15,11 +15,10 @@ CONSTANTS
   W_VoteIgnoreLog = FALSE
   W_NoPersistVote = FALSE
   W_AppendAlwaysTruncates = FALSE
-  W_HeartbeatCommitUnbounded = FALSE
+  W_HeartbeatCommitUnbounded = TRUE
   W_QuorumMinusOne = FALSE
 INIT Init
 NEXT Next
 CONSTRAINT NetBound
 VIEW view
-INVARIANTS ElectionSafety LogMatching StateMachineSafety LeaderCompleteness CommitWithinLog PersistedMatchesVolatile
-PROPERTY HardStateMonotonic
+INVARIANT EmitAttack
